@@ -21,8 +21,7 @@ STREAMS = {
               ["suggest_within_level", "suggest_not_downgrade", "suggest_no_panic"]),
     "qcase": ("MavenSuggester.Suggest / guidedremediation.Update vs Suggest.suggest_all", ["suggest_none_untouched"]),
     "rcase": ("relaxer.NpmRelaxer.Relax vs Relax.relax_npm",
-              ["relax_none_untouched", "relax_strictly_up", "relax_level_checked", "relax_range_within_level",
-               "relax_level_from_resolved_refuted"]),
+              ["relax_none_untouched", "relax_strictly_up", "relax_level_checked", "relax_range_within_level"]),
     "xcase": ("relax.patchVulns vs RelaxLoop.run_relax",
               ["relax_only_touches_responsible_directs", "relax_terminates"]),
     "vcase": ("override.getVersionsGreater vs Override.get_versions_greater",
@@ -40,18 +39,22 @@ META = {
                  "override.patchVulns/getVersionsGreater + vm_compute trace correspondence against the real strategies run on "
                  "generated offline deps.dev universes + result oracle on FixVulns/Update output",
     "level_text": "Theorems (Props_C11.v): allows_eq_spec/allows_compose (level semantics, composition of allowed steps); "
-                  "override_strictly_up / override_within_level / override_none_untouched / override_terminates for the model of "
-                  "override.patchVulns over every universe, vulnerability set and configuration (resolver, matcher, IsAffected, "
-                  "Difference as section variables); relax_* for the model of NpmRelaxer.Relax; suggest_* for the model of "
-                  "suggestMavenVersion (suggest_not_downgrade and suggest_no_panic without a domain since fix 81d44206; "
-                  "relax_range_within_level for every valid level since fix e6d56740; override_terminates for every resolver "
-                  "since fix 37eca69c). Still refuted at full strength: override_resolved_version_refuted (a package need not "
-                  "resolve to the override asked for; combined patches can pull it down), relax_level_from_resolved_refuted (npm resolves to the latest-tagged version, relax reasons from the highest match). The models are tied to the code on every run by evaluating them "
+                  "override_strictly_up / override_within_level / override_within_level_of_original / override_none_untouched / "
+                  "override_terminates (every resolver) for the model of override.patchVulns; sort_unique_on_distinct (the sorted "
+                  "version list is independent of the sorting algorithm, no 12-element bound); relax_none_untouched / "
+                  "relax_strictly_up / relax_level_checked / relax_range_within_level (every valid level, measured from the version "
+                  "the requirement resolves to) for the model of NpmRelaxer.Relax; relax_only_touches_responsible_directs / "
+                  "relax_terminates (measure: position of the highest matching version per direct requirement) for the model of "
+                  "relax.patchVulns; suggest_within_level / suggest_none_untouched / suggest_not_downgrade / suggest_no_panic for "
+                  "the model of suggestMavenVersion and MavenSuggester.Suggest. Six defects were repaired in /repo (fix commits "
+                  "e6d56740, 81d44206, 37eca69c, 7f88acb2, c3af8db4) and their witnesses run first on every run; still refuted at "
+                  "full strength: override_resolved_version_refuted (a package need not resolve to the override asked for; "
+                  "combined patches can pull it down). The models are tied to the code on every run by evaluating them "
                   "with vm_compute on the oracle answers recorded while the real functions ran.",
     "level_note": "Trusted: Coq kernel + vm_compute; Go harness harness/cmd/remed; hooks guidedremediation/verif_export_c11.go "
                   "(+ override/relax/suggest verif_export_c11.go); deps.dev resolve/semver (Compare total preorder, Difference "
                   "= first differing component: validated per universe), the resolvers and the manifest readers are oracles. "
-                  "Partial: the outer loop of relax.patchVulns and common.ComputePatches are exercised end-to-end, not modelled.",
+                  "Partial: common.ComputePatches / choosePatches are exercised end-to-end (and emulated call by call), not modelled.",
     "design_ref": "DESIGN.md section 5 C11",
 }
 
@@ -142,7 +145,7 @@ def run(ctx):
         "internal/strategy/relax/verif_export_c11.go, internal/suggest/verif_export_c11.go, guidedremediation/verif_export.go",
         "oracles (modelled, not verified): deps.dev resolve (npm/Maven resolvers, LocalClient, MatchRequirement), deps.dev semver "
         "(Parse, ParseConstraint, MatchVersion, Compare, Difference, IsPrerelease), manifest readers/writers, vulns.IsAffected (C18)",
-        "not modelled (exercised end-to-end only): relax.patchVulns outer loop, common.ComputePatches, choosePatches",
+        "not modelled (exercised end-to-end only): common.ComputePatches, choosePatches; ConstrainingSubgraph is an oracle",
     ]
     binp, out = ctx.harness_build("remed")
     if binp is None:
